@@ -17,6 +17,8 @@ import (
 	"time"
 
 	"pgregory.net/rapid"
+
+	"verifharness/gen"
 )
 
 // Unit is one leg of a property check, executed in its own process per shard.
@@ -384,6 +386,19 @@ func (c *Ctx) finish() {
 		c.P.Nontrivial = append(c.P.Nontrivial, h)
 	}
 	sort.Slice(c.P.Nontrivial, func(i, j int) bool { return c.P.Nontrivial[i] < c.P.Nontrivial[j] })
+}
+
+// CLI returns the path of the yaccgo command built from /repo for this run
+// (the orchestrator builds it once; replays build it on demand).
+func (c *Ctx) CLI() string {
+	p := filepath.Join(c.OutDir, "yaccgo-cli")
+	if _, err := os.Stat(p); err == nil {
+		return p
+	}
+	if err := gen.BuildCLI(filepath.Join(c.Verif, "harness"), p); err != nil {
+		c.Infra("%v", err)
+	}
+	return p
 }
 
 // SubSeed derives a deterministic non-zero seed for a named sub-task.
